@@ -10,7 +10,7 @@
                       and [scope]: no buffer name of a regular module is given an nn.Parameter (D131), None entries of a
                       custom-__setattr__ module are not addressed
      run_blocks       nested `with p.to_module(m):` blocks with an exception injected at a level (Model/C13_Swap.v);
-                      run_blocks = run_blocks_gen fixed_D6 (fixed_D6 = false: the code as it is) *)
+                      run_blocks = run_blocks_gen fixed_D6 (fixed_D6 = true since the fix: commit for D6) *)
 From Coq Require Import ZArith List String Bool.
 Import ListNotations.
 From TD Require Import Model.C13_Swap Model.C13_Scope Model.C13_Params Proofs.C13_SwapP Proofs.C13_ExactP.
@@ -53,7 +53,7 @@ Proof. exact swap_isolated. Qed.
 Print Assumptions C13_swap_isolated.
 
 (* ---- swap_then_restore, programs: any nesting of with-blocks (each on any module of the tree) in which nothing is
-   raised restores every slot; holds for the code as it is and for the repaired __exit__ alike *)
+   raised restores every slot (for either setting of the D6 switch) *)
 Theorem C13_swap_then_restore : forall fixed x bs lvl st st' evs oc,
   run_blocks_gen fixed x bs lvl st = (st', evs, oc) ->
   x_kind x = XNone -> Forall (fun e => ev_out e = OOk) evs ->
@@ -68,29 +68,21 @@ Theorem C13_swap_then_restore_unconditional_refuted : ~ swap_then_restore_uncond
 Proof. exact swap_then_restore_unconditional_refuted. Qed.
 Print Assumptions C13_swap_then_restore_unconditional_refuted.
 
-(* ---- restore_on_exception: the statement for the code as it is (run_blocks) ... *)
+(* ---- restore_on_exception (D6 repaired: __exit__ inverts a parameter swap also when the body raised): every program,
+   every injection point (before / in the k-th module's forward / in a hook / after / after an inner block), every
+   exception class, every nesting depth: when the outermost block has been left every slot is back *)
 Definition C13_restore_on_exception_full_statement : Prop := restore_on_exception_statement.
-(* ... is false: D6 (witness: two nested blocks, Exception raised in the inner body; checked by vm_compute) *)
-Theorem C13_restore_on_exception_refuted : ~ restore_on_exception_statement.
-Proof. exact restore_on_exception_refuted. Qed.
-Print Assumptions C13_restore_on_exception_refuted.
+Theorem C13_restore_on_exception : restore_on_exception_statement.
+Proof. exact restore_on_exception. Qed.
+Print Assumptions C13_restore_on_exception.
 
-(* partial, code as it is: a BaseException (KeyboardInterrupt, GeneratorExit ...) in the body of a block is inverted *)
-Theorem C13_restore_on_exception_partial : forall b st st' evs oc,
-  run_blocks_gen false (mkExc XBase 0 true) [b] 0 st = (st', evs, oc) ->
-  block_ok (t_heap st) b -> wf_heap (t_heap st) -> enters_ok evs ->
-  all_sloteq st' st /\ t_vals st' = t_vals st.
-Proof. exact restore_base_single. Qed.
-Print Assumptions C13_restore_on_exception_partial.
-
-(* with the repair (exit_block_gen true: the inverse is run whatever the body raised) the full statement holds: every
-   program, every injection point and exception class, every nesting depth *)
-Theorem C13_restore_on_exception_repaired : forall x bs lvl st st' evs oc,
+(* the same with the content of the tensors, stated on the semantics directly *)
+Theorem C13_restore_on_exception_values : forall x bs lvl st st' evs oc,
   run_blocks_gen true x bs lvl st = (st', evs, oc) ->
   Forall (block_ok (t_heap st)) bs -> wf_heap (t_heap st) -> enters_ok evs ->
   all_sloteq st' st /\ t_vals st' = t_vals st.
 Proof. exact restore_fixed. Qed.
-Print Assumptions C13_restore_on_exception_repaired.
+Print Assumptions C13_restore_on_exception_values.
 
 (* ---- inplace=True: identities stay, but with a tied tensor the original content is not written back (D134) *)
 Theorem C13_inplace_tied_values_refuted :
@@ -107,21 +99,6 @@ Theorem C13_inplace_keeps_identity : forall n k x st,
   slot3 n' k = slot3 n k /\ (forall k', k' <> k -> slot3 n' k' = slot3 n k') /\ m_custom n' = m_custom n /\ m_subs n' = m_subs n.
 Proof. exact std_slot_inplace. Qed.
 Print Assumptions C13_inplace_keeps_identity.
-
-(* ---- use_state_dict=True (D132) and swap_dest= (D133): the model reproduces both defects *)
-Theorem C13_use_state_dict_refuted :
-  let '(st', evs, oc) := run_blocks (mkExc XNone 0 false) [ex_b5] 0 (mkSt ex_heap4 ex_vals FRESH_BASE) in
-  Forall (fun e => ev_out e = OOk) evs /\ ~ all_sloteq st' (mkSt ex_heap4 ex_vals FRESH_BASE)
-  /\ exists n', hg st' 0%Z = Some n'
-       /\ match d_get (m_params n') "w" with Some (Some o) => ostor o = 1%Z /\ okd o = KParam /\ oid o <> 1%Z | _ => False end.
-Proof. exact ex_D132. Qed.
-Print Assumptions C13_use_state_dict_refuted.
-
-Theorem C13_swap_dest_refuted :
-  let '(st', evs, oc) := run_blocks (mkExc XNone 0 false) [ex_b6] 0 (mkSt ex_heap4 ex_vals FRESH_BASE) in
-  oc = ORaise ETypeError /\ enters_ok evs /\ ~ all_sloteq st' (mkSt ex_heap4 ex_vals FRESH_BASE).
-Proof. exact ex_D133. Qed.
-Print Assumptions C13_swap_dest_refuted.
 
 (* ---- params_registration: after any sequence of updates issued on the TensorDictParams itself, _parameters and
    _buffers are exactly the leaves (flattened names assumed pairwise different, i.e. no "."-collision) *)
@@ -149,6 +126,15 @@ Example C13_ex_normal_run :
   let '(st', evs, oc) := run_blocks (mkExc XNone 0 false) [ex_b1; ex_b2] 0 ex_st in
   Forall (fun e => ev_out e = OOk) evs /\ List.length evs = 4%nat /\ oc = OOk.
 Proof. exact ex_normal_run. Qed.
+Example C13_ex_exception_restored :
+  let '(st', evs, oc) := run_blocks (mkExc XExc 1 true) [ex_b1; ex_b2] 0 ex_st in all_sloteq st' ex_st.
+Proof. exact ex_exception_restored. Qed.
+Example C13_ex_usd_swap_dest :
+  (let '(st', evs, oc) := run_blocks (mkExc XNone 0 false) [ex_b5] 0 (mkSt ex_heap4 ex_vals FRESH_BASE) in
+   oc = OOk /\ t_heap st' = ex_heap4)
+  /\ (let '(st', evs, oc) := run_blocks (mkExc XNone 0 false) [ex_b6] 0 (mkSt ex_heap4 ex_vals FRESH_BASE) in
+      oc = OOk /\ t_heap st' = ex_heap4).
+Proof. exact ex_usd_swap_dest_run. Qed.
 Example C13_ex_from_module :
   (forall c n, h_get ex_heap c = Some n -> names_ok n)
   /\ exists t, from_module 4 ex_heap 0 = FmTd t /\ List.length (flat_leaves "" t) = 5%nat.
